@@ -284,6 +284,36 @@ impl<'a> Run<'a> {
         rec::emit(json!({"ev":"setlat","kind":"linkmax","a":a,"b":b,"v":v}));
     }
 
+    /// Latency setters on host SETS (regex): documented to act on every pair (x, y), x in a,
+    /// y in b, x != y; recorded as that sequence of per-link calls.
+    fn set_link_latency_sets(&mut self, a: &[usize], b: &[usize], v: u64, max_only: bool) {
+        let re = |s: &[usize]| {
+            let alt: Vec<String> = s.iter().map(|h| h.to_string()).collect();
+            regex::Regex::new(&format!("^h({})$", alt.join("|"))).unwrap()
+        };
+        if max_only {
+            self.sim
+                .set_link_max_message_latency(re(a), re(b), Duration::from_millis(v));
+        } else {
+            self.sim.set_link_latency(re(a), re(b), Duration::from_millis(v));
+        }
+        for &x in a {
+            for &y in b {
+                if x == y {
+                    continue;
+                }
+                if max_only {
+                    let (mn, _) = self.eff(x, y);
+                    self.lover.insert(pair(x, y), (mn, v));
+                    rec::emit(json!({"ev":"setlat","kind":"linkmax","a":x,"b":y,"v":v}));
+                } else {
+                    self.lover.insert(pair(x, y), (v, v));
+                    rec::emit(json!({"ev":"setlat","kind":"link","a":x,"b":y,"v":v}));
+                }
+            }
+        }
+    }
+
     fn set_max_latency(&mut self, v: u64) {
         self.sim.set_max_message_latency(Duration::from_millis(v));
         self.gmax = v;
@@ -876,6 +906,30 @@ fn main_random(args: &[String]) {
                         let (a, b, k) = cands[rng.random_range(0..cands.len())];
                         run.manual(a, b, k);
                         nctl += 1;
+                    }
+                }
+                if mode == "lat" && n >= 3 && rng.random_bool(0.12) {
+                    // per-link setters on host sets named by regex
+                    let pick = |rng: &mut SmallRng| -> Vec<usize> {
+                        let mut v: Vec<usize> = (1..=n).filter(|_| rng.random_bool(0.6)).collect();
+                        if v.is_empty() {
+                            v.push(rng.random_range(1..=n));
+                        }
+                        v
+                    };
+                    let (sa, sb) = (pick(&mut rng), pick(&mut rng));
+                    if rng.random_bool(0.6) {
+                        run.set_link_latency_sets(&sa, &sb, rng.random_range(0..=gmax + 3), false);
+                    } else {
+                        // a max-only override must not go below any affected link's minimum
+                        let lo = sa
+                            .iter()
+                            .flat_map(|&x| sb.iter().map(move |&y| (x, y)))
+                            .filter(|(x, y)| x != y)
+                            .map(|(x, y)| run.eff(x, y).0)
+                            .max()
+                            .unwrap_or(gmin);
+                        run.set_link_latency_sets(&sa, &sb, rng.random_range(lo..=lo + 6), true);
                     }
                 }
                 if mode == "lat" && rng.random_bool(0.25) {
